@@ -779,11 +779,12 @@ def rule_fold(text, ctx):
 
 def rule_range_find(text, ctx):
     """R16: `(A..B).find(|&x| PRED)` -> explicit first-match loop (definition of Iterator::find on a Range)."""
-    m = re.search(r'\((\w+)\.\.(\w+)\)\.find\(\|&(\w+)\| ([^;]*?)\)\n', text)
+    m = re.search(r'\(([^()]+?)\.\.([^()]+?)\)\.find\(\|&(\w+)\| ([^;]*?)\)\n', text)
     if m:
         a, b, x, pred = m.groups()
-        new = ('{ let mut verif_i = %s; let mut verif_r = None; while verif_i < %s { let %s = verif_i; '
-               'if %s { verif_r = Some(%s); break; } verif_i += 1; } verif_r }\n' % (a, b, x, pred, x))
+        # both bounds are evaluated once, in this order, as for the Range value; the loop then only names verif_a / verif_b
+        new = ('{ let verif_a = %s; let verif_b = %s; let mut verif_i = verif_a; let mut verif_r = None; while verif_i < verif_b { let %s = verif_i; '
+               'if %s { verif_r = Some(%s); break; } verif_i += 1; } verif_r }\n' % (a.strip(), b.strip(), x, pred, x))
         ctx.note('R16', m.group(0), new)
         text = text[:m.start()] + new + text[m.end():]
     return text
@@ -956,7 +957,10 @@ def apply_fn(text, spec, ctx, assoc_types=None, canary=False):
     for (k, orig, new, clause) in spec.closures:
         pos = nth_find(text, orig, k)
         if pos < 0:
-            raise ExtractError('fn %s: closure header %r (occurrence %d) not found' % (spec.name, orig, k))
+            # soft, like the statement anchors: the closure is gone (e.g. `cond.then(|| x)` became an `if`); the typed header is not needed
+            # then, and if the unit fails anyway the outcome is "undecided"
+            ctx.lost_anchors.append('fn %s: closure header %r (occurrence %d)' % (spec.name, orig, k))
+            continue
         after = pos + len(orig)
         # find body: block or expression up to the closing paren of the enclosing call
         j = after
